@@ -2799,6 +2799,7 @@ func (uconn *UConn) ApplyPreset(p *ClientHelloSpec) error {
 	}
 	uconn.echCtx = ech
 	uconn.extraEcdheKeys = nil
+	uconn.extraHybridKeys = nil
 	hello := uconn.HandshakeState.Hello
 
 	switch len(hello.Random) {
@@ -2890,6 +2891,7 @@ func (uconn *UConn) ApplyPreset(p *ClientHelloSpec) error {
 			}
 		case *KeyShareExtension:
 			preferredCurveIsSet := false
+			var lastHybrid CurveID
 			for i := range ext.KeyShares {
 				curveID := ext.KeyShares[i].Group
 				if isGREASEUint16(uint16(curveID)) { // just in case the user set a GREASE value instead of unGREASEd
@@ -2919,6 +2921,18 @@ func (uconn *UConn) ApplyPreset(p *ClientHelloSpec) error {
 					} else {
 						ext.KeyShares[i].Data = append(mlkemKey.EncapsulationKey().Bytes(), ecdheKey.PublicKey().Bytes()...)
 					}
+					if lastHybrid != 0 {
+						// remember the keys of the earlier hybrid share, so that the
+						// server may select any share that was sent
+						if uconn.extraHybridKeys == nil {
+							uconn.extraHybridKeys = make(map[CurveID]hybridKeySharePrivateKeys)
+						}
+						uconn.extraHybridKeys[lastHybrid] = hybridKeySharePrivateKeys{
+							mlkem: uconn.HandshakeState.State13.KeyShareKeys.Mlkem,
+							ecdhe: uconn.HandshakeState.State13.KeyShareKeys.MlkemEcdhe,
+						}
+					}
+					lastHybrid = curveID
 					uconn.HandshakeState.State13.KeyShareKeys.Mlkem = mlkemKey
 					uconn.HandshakeState.State13.KeyShareKeys.MlkemEcdhe = ecdheKey
 					if !preferredCurveIsSet {
